@@ -125,6 +125,11 @@ def run_unit(unit, ctx):
         for si in range(n_steps):
             x_in = monitors.vec_dict(st)
             P_in = monitors.cov_matrix(cov, names).tolist()
+            if gen.outside_domain(defn, x_in):
+                # the free-running estimate left the domain of the non-probe workloads (exp-overflow region of
+                # the known finding, or a kink): the sequence is cut here
+                R.stats.inc("sequences_cut_outside_domain")
+                break
             if si % 2 == 0:
                 dt = float(rng.choice([0.01, 0.1, 0.5, rng.uniform(1e-3, 1.0)]))
                 u = {c: rng.gauss(0, 1) for c in defn["control"]}
